@@ -92,7 +92,7 @@ fn main() {
                     auth: if profile == "events" { "none".into() } else { "custom".into() },
                     ..Default::default()
                 },
-                Profile { steps: 70, comps: vec!["A"], marks: false, events: true, sess: profile == "events", ..Default::default() },
+                Profile { steps: 70, comps: vec!["A", "O"], marks: false, events: true, sess: profile == "events", ..Default::default() },
             ),
             "rel" | "rel_kf" => (
                 Cfg { ents: three(), clients: clients(2), max_size: vec![1200; 2], rel: true, ..Default::default() },
@@ -104,7 +104,7 @@ fn main() {
             ),
             "sess" => (
                 Cfg { ents: three(), clients: clients(2), max_size: vec![1200; 2], ..Default::default() },
-                Profile { steps: 70, comps: vec!["A", "B"], sess: true, ..Default::default() },
+                Profile { steps: 70, comps: vec!["A", "B", "O"], sess: true, ..Default::default() },
             ),
             p => panic!("unknown profile {p}"),
         };
